@@ -1,6 +1,6 @@
-CONSTANTS HW = 10
-          Margins = {21}
-          Anchors = {1}
+CONSTANTS HW = 7
+          Margins = {21, 2}
+          Anchors = {1, 2}
           NMax = 8
           GenMod = 1
 INIT Init
